@@ -953,6 +953,9 @@ func (b *boundsAn) fieldValidated(f *types.Var, kind guardKind) bool {
 			continue
 		}
 		n++
+		if os.Getenv("DFS_DEBUG_FIELD") == f.Name() {
+			fmt.Fprintf(os.Stderr, "fieldValidated %s: store in %s guarded=%v vbs=%v noWidth=%v\n", f.Name(), fnName(st.Parent()), b.isGuarded(st.Val, st.Block(), kind, 1), b.validatedBeforeSuccess(st, kind), b.noWidth)
+		}
 		if !b.isGuarded(st.Val, st.Block(), kind, 1) {
 			// a validation after the store also counts when every success return of the storing function is
 			// dominated by the bounding edge of a comparison on the stored value
@@ -975,10 +978,25 @@ func (b *boundsAn) validatedBeforeSuccess(st *ssa.Store, kind guardKind) bool {
 	// candidates: the stored value itself and every later load of the same field of the same object
 	cands := []ssa.Value{st.Val}
 	if fa, ok := st.Addr.(*ssa.FieldAddr); ok {
+		// the object, and the local variables the whole object is copied into (`e := T{...}` builds a temporary and
+		// copies it into e)
+		bases := []ssa.Value{fa.X}
+		allInstrs(fn, func(ins ssa.Instruction) {
+			if cp, ok := ins.(*ssa.Store); ok {
+				if ld, ok := cp.Val.(*ssa.UnOp); ok && ld.Op == token.MUL && (ld.X == fa.X || sameBase(ld.X, fa.X)) {
+					bases = append(bases, cp.Addr)
+				}
+			}
+		})
 		allInstrs(fn, func(ins ssa.Instruction) {
 			if ld, ok := ins.(*ssa.UnOp); ok && ld.Op == token.MUL {
-				if fa2, ok := ld.X.(*ssa.FieldAddr); ok && fa2.Field == fa.Field && sameBase(fa2.X, fa.X) {
-					cands = append(cands, ld)
+				if fa2, ok := ld.X.(*ssa.FieldAddr); ok && fa2.Field == fa.Field {
+					for _, bs := range bases {
+						if fa2.X == bs || sameBase(fa2.X, bs) {
+							cands = append(cands, ld)
+							break
+						}
+					}
 				}
 			}
 		})
